@@ -133,3 +133,26 @@ Theorem server_moved_partial : forall pp bt banned first a t b1 b2 c,
     c_info c' = c_info c /\ c_jsight c' = c_jsight c.
 Proof. exact server_moved_lemma. Qed.
 Print Assumptions server_moved_partial.
+
+(* ... and TYPE, ENUM (written out from C20 type_inserted / enum_inserted) *)
+Theorem type_moved_partial : forall pp bt banned first a t b1 b2 c,
+  tree_kids t = [] -> dk t = KType -> kind_in KType banned = false ->
+  let n := named (tree_dir t) (bs "Name") in
+  (forall p, In p (positions_all (b1 ++ b2)) -> typ_step_ok n (fst p) (snd p)) ->
+  build pp bt banned ((first :: a) ++ t :: b1 ++ b2) = COk c ->
+  exists c', build pp bt banned ((first :: a ++ b1) ++ t :: b2) = COk c' /\
+    Permutation (c_types c) (c_types c') /\
+    c_servers c' = c_servers c /\ c_enums c' = c_enums c /\ c_tags c' = c_tags c /\ c_inters c' = c_inters c /\
+    c_info c' = c_info c /\ c_jsight c' = c_jsight c.
+Proof. exact type_moved_lemma. Qed.
+Print Assumptions type_moved_partial.
+
+Theorem enum_moved_partial : forall pp bt banned first a t b1 b2 c,
+  tree_kids t = [] -> enum_node t = true -> kind_in KEnum banned = false ->
+  build pp bt banned ((first :: a) ++ t :: b1 ++ b2) = COk c ->
+  exists c', build pp bt banned ((first :: a ++ b1) ++ t :: b2) = COk c' /\
+    Permutation (c_enums c) (c_enums c') /\
+    c_servers c' = c_servers c /\ c_types c' = c_types c /\ c_tags c' = c_tags c /\ c_inters c' = c_inters c /\
+    c_info c' = c_info c /\ c_jsight c' = c_jsight c.
+Proof. exact enum_moved_lemma. Qed.
+Print Assumptions enum_moved_partial.
